@@ -746,15 +746,24 @@ func (e *Engine) assignTargets(fr *Frame, st *State, a *AssignItem, eval func(cl
 		lo := e.sOff(s)
 		out = append(out, &havocTarget{heap: "M", ref: e.sBase(s), lo: lo, hi: tb.BVBin("bvadd", lo, e.sLen(s))})
 		e.heap(st, "M", ArraySort(SRef, SBytes))
-	case "stream":
+	case "stream", "instream", "outstream":
 		s := v.(*Term)
 		ref := tb.Acc(s, 1)
-		for _, n := range []string{"in_pos", "out_len", "out_calls"} {
+		names := []string{"in_pos", "out_len", "out_calls"}
+		switch a.Kind {
+		case "instream":
+			names = []string{"in_pos"}
+		case "outstream":
+			names = []string{"out_len", "out_calls"}
+		}
+		for _, n := range names {
 			e.heap(st, n, ArraySort(SRef, SBV64))
 			out = append(out, &havocTarget{heap: n, ref: ref})
 		}
-		e.heap(st, "out_data", ArraySort(SRef, SBytes))
-		out = append(out, &havocTarget{heap: "out_data", ref: ref})
+		if a.Kind != "instream" {
+			e.heap(st, "out_data", ArraySort(SRef, SBytes))
+			out = append(out, &havocTarget{heap: "out_data", ref: ref})
+		}
 	case "obj":
 		p, ok := v.(*PtrVal)
 		if !ok || p.Kind != KObj {
